@@ -64,6 +64,16 @@ var (
 	ms  = tx("ms", "M", "A", 1, 0) // issuer = outside sealer M: self-sealed when crafted by M
 )
 
+// wide appends the deadline-bounded wide runs of the thorough tier (more nodes, longer histories).
+func wide(tier string, rs []ledgerRun, extra ...ledgerRun) []ledgerRun {
+	if tier == "thorough" {
+		return append(rs, extra...)
+	}
+	return rs
+}
+
+var three = []string{"G", "N1", "N2"}
+
 func only(ps ...string) map[string]bool {
 	m := map[string]bool{}
 	for _, p := range ps {
@@ -84,7 +94,7 @@ var ledgerSpecs = []ledgerSpec{
 		// A received 6 (checkpointed by the first truncation), spent exactly 6 (tz) and was checkpointed again;
 		// a further spend of 6 by A (tz2) must then be dropped, not built upon
 		dbl := []string{"P:0:t1", "P:0:c1", "P:0:c2", "P:0:c3", "T:0", "P:0:tz", "P:0:c4", "P:0:c5", "P:0:c6", "T:0"}
-		return []ledgerRun{
+		return wide(tier, []ledgerRun{
 			{"drained-wallet-after-two-truncations", ledger.Cfg{Nodes: []string{"G"}, Supply: sp(10, 0), Menu: []ledger.TxSpec{tx("tz2", "A", "B", 6, 0), cfl("c7"), cfl("c8")},
 				Hidden: []ledger.TxSpec{t1, tx("tz", "A", "B", 6, 0), cfl("c4"), cfl("c5"), cfl("c6")}, Truncate: true, Prefix: dbl, Props: only("C01")}, 3, 0, 0},
 			{"stale-side-tip+truncate", ledger.Cfg{Nodes: []string{"G", "N1"}, Supply: sp(10, 0), Menu: []ledger.TxSpec{t1, t3}, Hidden: []ledger.TxSpec{mx}, MaxProposeNodes: 1, Truncate: true, Prefix: stale, Props: only("C01")}, d - 2, 0, 0},
@@ -92,14 +102,16 @@ var ledgerSpecs = []ledgerSpec{
 			{"trusted-sealer", ledger.Cfg{Nodes: []string{"G"}, Supply: sp(10, 0), Menu: []ledger.TxSpec{t1, t3}, Crafted: []ledger.TxSpec{mx}, TrustedCraf: []ledger.TxSpec{my}, Props: only("C01")}, d, 0, 0},
 			{"carry-borrow-amounts", ledger.Cfg{Nodes: []string{"G"}, Supply: sp(1, 0), Menu: []ledger.TxSpec{t6, t7, tx("t7b", "R", "A", 0, 2)}, Props: only("C01")}, d, 0, 0},
 			{"after-truncation", ledger.Cfg{Nodes: []string{"G"}, Supply: sp(10, 0), Menu: []ledger.TxSpec{t3, t4, t2}, Crafted: []ledger.TxSpec{mx}, Truncate: true, Prefix: []string{"P:0:p1", "P:0:p2", "P:0:p3"}, Props: only("C01")}, d, 0, 0},
-		}
+		},
+			ledgerRun{"three-nodes+overdraw+truncate", ledger.Cfg{Nodes: three, Supply: sp(10, 0), Menu: []ledger.TxSpec{t1, t2, t3}, Crafted: []ledger.TxSpec{mx}, Truncate: true, MaxProposeNodes: 1, Props: only("C01")}, 8, 0, 0},
+		)
 	}},
 	{id: "C02", level: "model_checking", runs: func(tier string) []ledgerRun {
 		d := 6
 		if tier == "thorough" {
 			d = 8
 		}
-		return []ledgerRun{
+		rs := []ledgerRun{
 			{"concurrent-spends", ledger.Cfg{Nodes: []string{"G", "N1"}, Supply: sp(10, 0), Menu: []ledger.TxSpec{t1, t2, t3}, MaxProposeNodes: 1, Props: only("C02")}, d, 0, 0},
 			// sub-unit amounts: whole units tie, the fraction decides (5.2 received, 5.7 spent; 0.4 + 0.4 + 0.4 from an empty wallet)
 			{"fractional-amounts", ledger.Cfg{Nodes: []string{"G"}, Supply: sp(10, 0), Menu: []ledger.TxSpec{tx("fa", "R", "A", 5, 200_000_000_000_000_000), tx("fb", "A", "B", 5, 700_000_000_000_000_000),
@@ -108,16 +120,25 @@ var ledgerSpecs = []ledgerSpec{
 			// a wallet pays itself: the amount is income and spending at once (A holds 6, pays itself 5, then tries to pay 9)
 			{"self-payment", ledger.Cfg{Nodes: []string{"G"}, Supply: sp(10, 0), Menu: []ledger.TxSpec{t1, tx("sp5", "A", "A", 5, 0), tx("sb9", "A", "B", 9, 0), tx("sp20", "B", "B", 20, 0), t7}, Props: only("C02")}, d, 0, 0},
 		}
+		if tier == "thorough" {
+			// wide runs (deadline-bounded): three nodes, conflicting spends proposed at up to two of them, any delivery order
+			rs = append(rs,
+				ledgerRun{"three-nodes-concurrent-spends", ledger.Cfg{Nodes: three, Supply: sp(10, 0), Menu: []ledger.TxSpec{t1, t2, t3}, MaxProposeNodes: 1, Props: only("C02")}, 10, 0, 0},
+				ledgerRun{"two-nodes-mixed-menu", ledger.Cfg{Nodes: []string{"G", "N1"}, Supply: sp(10, 0), Menu: []ledger.TxSpec{t1, t2, t3, tx("sp5", "A", "A", 5, 0), tx("fb", "A", "B", 5, 700_000_000_000_000_000), t7}, MaxProposeNodes: 1, Props: only("C02")}, 9, 0, 0})
+		}
+		return rs
 	}},
 	{id: "C03", level: "model_checking", runs: func(tier string) []ledgerRun {
 		d := 6
 		if tier == "thorough" {
 			d = 8
 		}
-		return []ledgerRun{
+		return wide(tier, []ledgerRun{
 			{"same-trx-two-nodes+dup", ledger.Cfg{Nodes: []string{"G", "N1"}, Supply: sp(10, 0), Menu: []ledger.TxSpec{t1, t7}, Dup: true, Tick: true, Props: only("C03")}, d, 0, 0},
 			{"drop-then-repropose+truncate", ledger.Cfg{Nodes: []string{"G"}, Supply: sp(10, 0), Menu: []ledger.TxSpec{t1, t3, t7}, Crafted: []ledger.TxSpec{mx}, Truncate: true, Props: only("C03")}, d, 0, 0},
-		}
+		},
+			ledgerRun{"same-trx-three-nodes+dup", ledger.Cfg{Nodes: three, Supply: sp(10, 0), Menu: []ledger.TxSpec{t1, t7}, Dup: true, Tick: true, MaxProposeNodes: 3, Props: only("C03")}, 9, 0, 0},
+		)
 	}},
 	{id: "C06", level: "model_checking", runs: func(tier string) []ledgerRun {
 		d := 4
@@ -126,13 +147,15 @@ var ledgerSpecs = []ledgerSpec{
 		}
 		cf := func(l string) ledger.TxSpec { return ledger.TxSpec{Label: l, From: "R", To: "B", Data: "filler"} }
 		drain := []string{"P:0:t1", "P:0:c1", "P:0:c2", "P:0:c3"}
-		return []ledgerRun{
+		return wide(tier, []ledgerRun{
 			{"drain-to-zero+two-truncations", ledger.Cfg{Nodes: []string{"G"}, Supply: sp(10, 0), Menu: []ledger.TxSpec{tx("tz", "A", "B", 6, 0), cf("c4"), cf("c5"), cf("c6")}, Hidden: []ledger.TxSpec{t1}, Truncate: true, Prefix: drain, Props: only("C06")}, d + 2, 0, 0},
 			{"two-nodes", ledger.Cfg{Nodes: []string{"G", "N1"}, Supply: sp(10, 0), Menu: []ledger.TxSpec{t1, t2, t3, tx("tself", "A", "A", 1, 0)}, Props: only("C06")}, d, 0, 0},
 			// amounts at the 2^64 edge: recirculated funds make a wallet's gross inflow exceed 2^64 although every balance is representable
 			{"huge-amounts", ledger.Cfg{Nodes: []string{"G"}, Supply: sp(1<<64-1, 0), Menu: []ledger.TxSpec{tx("h1", "R", "A", 1<<63, 0), tx("h2", "A", "R", 1<<63, 0), tx("h3", "R", "A", 1<<63, 999_999_999_999_999_999)}, Props: only("C06")}, d, 0, 0},
 			{"truncated", ledger.Cfg{Nodes: []string{"G"}, Supply: sp(10, 0), Menu: []ledger.TxSpec{t1, t3, t5, t7}, Crafted: []ledger.TxSpec{tx("side", "R", "B", 1, 0)}, Truncate: true, Props: only("C06")}, d + 1, 0, 0},
-		}
+		},
+			ledgerRun{"three-nodes", ledger.Cfg{Nodes: three, Supply: sp(10, 0), Menu: []ledger.TxSpec{t1, t2, t3, tx("tself", "A", "A", 1, 0)}, MaxProposeNodes: 1, Props: only("C06")}, 6, 0, 0},
+		)
 	}},
 	{id: "C07", level: "model_checking", runs: func(tier string) []ledgerRun {
 		d := 6
@@ -143,7 +166,7 @@ var ledgerSpecs = []ledgerSpec{
 		unmerged := []string{"P:0:p1", "D:1:0", "P:1:p2", "P:1:p3", "P:1:p4", "P:1:p5", "P:0:t7", "D:0:1", "D:0:2", "D:0:3", "D:0:4"}
 		cf := func(l string) ledger.TxSpec { return ledger.TxSpec{Label: l, From: "R", To: "B", Data: "filler"} }
 		drain := []string{"P:0:t1", "P:0:c1", "P:0:c2", "P:0:c3"}
-		return []ledgerRun{
+		return wide(tier, []ledgerRun{
 			// a wallet is checkpointed with funds, then spends exactly all of them, then is checkpointed again
 			{"drain-to-zero+two-truncations", ledger.Cfg{Nodes: []string{"G"}, Supply: sp(10, 0), Menu: []ledger.TxSpec{tx("tz", "A", "B", 6, 0), cf("c4"), cf("c5"), cf("c6")}, Hidden: []ledger.TxSpec{t1}, Truncate: true, Prefix: drain, Props: only("C07")}, d, 0, 0},
 			{"unmerged-branches", ledger.Cfg{Nodes: []string{"G", "N1"}, Supply: sp(10, 0), Menu: []ledger.TxSpec{t1, t3}, Hidden: []ledger.TxSpec{t7}, MaxProposeNodes: 1, Truncate: true, Prefix: unmerged, Props: only("C07")}, d - 2, 0, 0},
@@ -152,19 +175,23 @@ var ledgerSpecs = []ledgerSpec{
 			{"interrupted-truncation", ledger.Cfg{Nodes: []string{"G"}, Supply: sp(10, 0), Menu: []ledger.TxSpec{t3, cf("c4")}, Hidden: []ledger.TxSpec{t1}, Truncate: true, TruncCancel: []int{1, 2, 3, 4, 5, 6},
 				Prefix: []string{"P:0:t1", "P:0:c1", "P:0:c2", "P:0:c3"}, Props: only("C07")}, 3, 0, 0},
 			{"two-nodes", ledger.Cfg{Nodes: []string{"G", "N1"}, Supply: sp(10, 0), Menu: []ledger.TxSpec{t1, t3, t7}, Truncate: true, MaxProposeNodes: 1, Props: only("C07")}, d, 0, 0},
-		}
+		},
+			ledgerRun{"three-nodes+truncate", ledger.Cfg{Nodes: three, Supply: sp(10, 0), Menu: []ledger.TxSpec{t1, t3, t7}, Truncate: true, MaxProposeNodes: 1, Props: only("C07")}, 8, 0, 0},
+		)
 	}},
 	{id: "C09", level: "model_checking", runs: func(tier string) []ledgerRun {
 		d := 5
 		if tier == "thorough" {
 			d = 6
 		}
-		return []ledgerRun{
+		return wide(tier, []ledgerRun{
 			{"two-nodes+overdraw+truncate+dup", ledger.Cfg{Nodes: []string{"G", "N1"}, Supply: sp(10, 0), Menu: []ledger.TxSpec{t1, t2, t3}, Crafted: []ledger.TxSpec{mx}, Truncate: true, Dup: true, Tick: true, Props: only("C09")}, d, 0, 0},
 			// data-only vertices and transfers mixed, truncated from a non-initial history
 			{"contracts+transfers+truncate", ledger.Cfg{Nodes: []string{"G"}, Supply: sp(10, 0), Menu: []ledger.TxSpec{t1, t3, {Label: "cx", From: "R", To: "B", Data: "d"}, {Label: "cy", From: "A", To: "B", Data: "d"}},
 				Truncate: true, Prefix: []string{"P:0:c1", "P:0:p1", "P:0:c2"}, Props: only("C09")}, d, 0, 0},
-		}
+		},
+			ledgerRun{"three-nodes+overdraw+truncate", ledger.Cfg{Nodes: three, Supply: sp(10, 0), Menu: []ledger.TxSpec{t1, t2, t3}, Crafted: []ledger.TxSpec{mx}, Truncate: true, Tick: true, MaxProposeNodes: 1, Props: only("C09")}, 7, 0, 0},
+		)
 	}},
 	{id: "C10", level: "model_checking", runs: func(tier string) []ledgerRun {
 		d := 5
@@ -176,11 +203,11 @@ var ledgerSpecs = []ledgerSpec{
 			// the same rules for data-only (contract) transactions and for vertices crafted by an outside sealer:
 			// genesis wallet as issuer of a contract / of a transfer, node wallet as issuer of a contract, self-sealed contract
 			{"sealing-rules-contracts+crafted", ledger.Cfg{Nodes: []string{"G", "N1"}, Supply: sp(10, 0),
-				Menu:    []ledger.TxSpec{{Label: "gd", From: "G", To: "A", Data: "d"}, {Label: "nd", From: "N1", To: "A", Data: "d"}, t1},
+				Menu: []ledger.TxSpec{{Label: "gd", From: "G", To: "A", Data: "d"}, {Label: "nd", From: "N1", To: "A", Data: "d"}, t1},
 				Crafted: []ledger.TxSpec{{Label: "mgd", From: "G", To: "A", Data: "d"}, tx("mgs", "G", "A", 1, 0), {Label: "msd", From: "M", To: "A", Data: "d"},
 					// the same wallets under an alias address (other version byte, same key): the rules are about wallets, not strings
 					{Label: "malias", From: "M~v1", To: "A", Data: "d"}, {Label: "galias", From: "G~v1", To: "A", Data: "d"}},
-				Tick:    true, Props: only("C10")}, d, 0, 0},
+				Tick: true, Props: only("C10")}, d, 0, 0},
 		}
 	}},
 	{id: "C14", level: "model_checking", runs: func(tier string) []ledgerRun {
@@ -204,11 +231,14 @@ var ledgerSpecs = []ledgerSpec{
 		}
 		chain := []string{"P:0:p1", "P:0:p2", "P:0:p3"}
 		diamond := []string{"P:0:p1", "Z:0:side", "P:0:p2", "P:0:p3"}
-		return []ledgerRun{
+		return wide(tier, []ledgerRun{
 			{"diamond-any-order", ledger.Cfg{Nodes: []string{"G", "N1"}, Supply: sp(10, 0), Menu: nil, Hidden: []ledger.TxSpec{tx("side", "R", "B", 1, 0)}, Tick: true, Prefix: diamond, Props: only("C13")}, d + 2, 0, 0},
 			{"chain3-any-order", ledger.Cfg{Nodes: []string{"G", "N1"}, Supply: sp(10, 0), Menu: nil, Tick: true, Dup: true, Prefix: chain, Props: only("C13")}, d, 0, 0},
 			{"chain3+local-proposal", ledger.Cfg{Nodes: []string{"G", "N1"}, Supply: sp(10, 0), Menu: []ledger.TxSpec{tx("loc", "R", "B", 1, 0)}, MaxProposeNodes: 1, Tick: true, Prefix: chain, Props: only("C13")}, d - 1, 0, 0},
-		}
+		},
+			ledgerRun{"chain4-any-order+dup", ledger.Cfg{Nodes: []string{"G", "N1"}, Supply: sp(10, 0), Menu: nil, Tick: true, Dup: true, Prefix: []string{"P:0:p1", "P:0:p2", "P:0:p3", "P:0:p4"}, Props: only("C13")}, 12, 0, 0},
+			ledgerRun{"chain5-any-order", ledger.Cfg{Nodes: []string{"G", "N1"}, Supply: sp(10, 0), Menu: nil, Tick: true, Prefix: []string{"P:0:p1", "P:0:p2", "P:0:p3", "P:0:p4", "P:0:p5"}, Props: only("C13")}, 12, 0, 0},
+		)
 	}},
 }
 
@@ -315,7 +345,7 @@ func ledgerMain(s ledgerSpec, args []string) int {
 	deadline := common.Deadline(budgetQ, budgetT)
 	total := &space.Stats{Exhaustive: true, Counters: map[string]int{}, PerKind: map[string]int{}, Results: map[string]int{}}
 	perRun := map[string]any{}
-	for _, r := range runs {
+	for ri, r := range runs {
 		if *run != "" && r.name != *run {
 			continue
 		}
@@ -324,7 +354,14 @@ func ledgerMain(s ledgerSpec, args []string) int {
 			d = *depthF
 		}
 		frep := &filterRep{rep: rep, id: s.id, run: r.name}
-		st := space.SearchF(frep.add, rep.Sample, []string{s.id, "worker", r.name}, d, *procs, deadline, 50)
+		// every run gets an equal share of what is left of the budget (runs that finish early leave their share to the later ones)
+		runDeadline := deadline
+		if left := len(runs) - ri; left > 1 && *run == "" {
+			if share := time.Now().Add(time.Until(deadline) / time.Duration(left)); share.Before(runDeadline) {
+				runDeadline = share
+			}
+		}
+		st := space.SearchF(frep.add, rep.Sample, []string{s.id, "worker", r.name}, d, *procs, runDeadline, 50)
 		perRun[r.name] = map[string]any{"states": st.States, "transitions": st.Transitions, "depth_completed": st.DepthDone, "depth_bound": d,
 			"exhaustive_within_bound": st.Exhaustive, "cap_hit": st.CapHit, "frontier_left": st.FrontierLeft, "level_sizes": st.LevelSizes, "counters": st.Counters, "results": st.Results, "data_deviations_per_event_bound": r.maxData(common.Tier())}
 		total.States += st.States
